@@ -6,13 +6,13 @@
 (* The universes contain graded meshes on which the containing cell is NOT     *)
 (* among the k nearest centroids (fallback path).  Coordinates are doubled so  *)
 (* that half-lattice points are integers.                                      *)
-(* Which = "main": connected meshes, must hold.  Which = "linecomp": 1-D meshes*)
-(* with several components -- the named deviation LineFinderComponents         *)
-(* (DESIGN section 7, #16): the invariant is expected to be violated there and *)
-(* is reported through the known-finding mechanism.                            *)
+(* Which = "main": all universes, incl. 1-D meshes with several components     *)
+(* (ordinary inputs since fix 6d9cf06) - must hold.  Which = "linecomp" with    *)
+(* LineAlgo = "prerepair": regression model of the 1-D finder before the fix    *)
+(* (DESIGN section 7, #16): TLC must refute FindOK there.                       *)
 EXTENDS Locate, MC_Universe
 
-CONSTANTS Which, Tier
+CONSTANTS Which, Tier, LineAlgo
 
 \* ---- tensor-product meshes over coordinate sequences (already doubled) ----
 TId2(nx, a, b) == (b - 1) * nx + a
@@ -103,7 +103,7 @@ LineCompUniverse ==
   { Entry(Doubled(Strip(mm)), {<<x>> : x \in Half(0, 4)}, {}) :
       mm \in WithNumberings({SubMesh("line", LineP, LineCells, S) : S \in {{1, 3}, {1, 4}, {1, 2, 4}, {1, 3, 4}, {2, 4}}}) }
 
-Universe == IF Which = "main" THEN MainUniverse ELSE LineCompUniverse
+Universe == IF Which = "main" THEN MainUniverse \cup LineCompUniverse ELSE LineCompUniverse
 USeq == SetToSeq(Universe)
 ASSUME \A j \in DOMAIN USeq : MeshInScope(USeq[j].m)
 
@@ -125,7 +125,8 @@ vars == <<ui, pts, out>>
 
 Init == ui \in DOMAIN USeq /\ pts \in BatchesOf(USeq[ui]) /\ out = <<>>
 Compute == /\ out = <<>>
-           /\ out' = FindImpl(USeq[ui].m, pts)
+           /\ out' = IF USeq[ui].m.kind = "line" /\ LineAlgo = "prerepair"
+                     THEN FindLineImplPreRepair(USeq[ui].m, pts) ELSE FindImpl(USeq[ui].m, pts)
            /\ UNCHANGED <<ui, pts>>
 Spec == Init /\ [][Compute]_vars
 
